@@ -39,6 +39,10 @@ static std::string oracle(const Case& c) {
         } else { s2.p = nullptr; ev.count("discard:load-construct-failed"); }
         std::string again2 = lib::encode(s, le->lang, coin);
         if (again2 != got) return "encoding the same seed twice gives different phrases";
+        // the phrase is a function of the seed only: reconfiguring the enabled features (also to a mask that no longer admits this seed) must not change it
+        unsigned m2 = (unsigned)c.u("othermask") & 7u; polyseed_enable_features(m2); std::string again3 = lib::encode(s, le->lang, coin); polyseed_enable_features(7);
+        if (again3 != got) return "the phrase of a live seed changed after polyseed_enable_features(" + std::to_string(m2) + "): [" + got + "] vs [" + again3 + "]";
+        ev.count("purity:after-feature-mask-change");
     }
     s.reset(); 
     ev.eval(); ev.nt(c); ev.count("lang:" + le->name_en);
@@ -74,7 +78,7 @@ static void run() {
     rc_run("c03-random", a.n(60000, 400000), 100, [&]() {
         auto sec = *g::secret19(); int bd = *g::birthday(); unsigned feat = *in_range<unsigned>(0, 32) & 0x17u; int coin = *g::coin(); int li = *g::lang_index();
         Case c; c.set("secret", hex(sec)); c.set("birthday", (uint64_t)bd); c.set("features", feat); c.set("coin", (uint64_t)coin); c.set("lang", REG->at(li).name_en);
-        c.set("mask", *in_range<unsigned>(0, 8)); c.set("randtop", *in_range<unsigned>(0, 4)); c.set("purity", *in_range<int>(0, 3) == 0 ? 1 : 0); c.set("otherlang", (uint64_t)*g::lang_index()); c.set("class", "random");
+        c.set("mask", *in_range<unsigned>(0, 8)); c.set("randtop", *in_range<unsigned>(0, 4)); c.set("purity", *in_range<int>(0, 3) == 0 ? 1 : 0); c.set("otherlang", (uint64_t)*g::lang_index()); c.set("othermask", *in_range<unsigned>(0, 8)); c.set("class", "random");
         set_current(c); std::string m = oracle(c); if (!m.empty()) VF_FAIL(c, m);
     });
 }
